@@ -103,8 +103,67 @@ SAMI1 = render.sami_doc([("ENCC", "en-US"), ("FRCC", "fr-FR")], [
     ("17350", [("ENCC", "of <span style=\"font-style:italic;\">E</span> equals m c-squared")])])
 
 
+# documents on which the reader raises, some of them midway through (state left behind on a reused
+# reader object must not reach the next read), and style tables with text-align (a writer pops it)
+SCC_LONG = """Scenarist_SCC V1.0
+
+00:00:01:00\t94ae 94ae 9420 9420 9470 9470 c8e5 ecec ef20 c8e5 ecec ef20 c8e5 ecec ef20 c8e5 ecec ef20 c8e5 ecec ef20 c8e5 ecec ef20 942f 942f
+
+00:00:04:00\t942c 942c
+"""
+SCC_LEFT = """Scenarist_SCC V1.0
+
+00:00:01:00\t94ae 94ae 9420 9420 9470 9470 cce5 e674 20ef f6e5 f280
+"""
+SCC_BADTC = """Scenarist_SCC V1.0
+
+00:00:01:00\t94ae 94ae 9420 9420 1370 1370 c7ef ef64 942f 942f
+
+00:00:02:00\t94ae 94ae 9420 9420 9470 9470 d0e5 6e64 e96e e780
+
+0:0:3\t942f 942f
+"""
+DFXP_NONE = """<?xml version="1.0" encoding="utf-8"?>
+<tt xml:lang="en" xmlns="http://www.w3.org/ns/ttml"><body><div xml:lang="en-US"></div></body></tt>
+"""
+DFXP_TA = """<?xml version="1.0" encoding="utf-8"?>
+<tt xml:lang="en" xmlns="http://www.w3.org/ns/ttml" xmlns:tts="http://www.w3.org/ns/ttml#styling">
+ <head>
+  <styling>
+   <style xml:id="c" tts:textAlign="center" tts:color="yellow"/>
+   <style xml:id="r" tts:textAlign="right"/>
+  </styling>
+ </head>
+ <body>
+  <div xml:lang="en-US">
+   <p begin="00:00:01.000" end="00:00:02.000" style="c">Centred</p>
+   <p begin="00:00:03.000" end="00:00:04.000" style="r" tts:textAlign="left">Right then left</p>
+  </div>
+ </body>
+</tt>
+"""
+SAMI_TA = """<SAMI><HEAD><TITLE>ta</TITLE>
+<STYLE TYPE="text/css">
+<!--
+P { margin-left: 1pt; text-align: center; font-size: 10pt; color: white; }
+.ENCC {Name: English; lang: en-US; SAMI_Type: CC;}
+.hl { text-align: right; color: red; }
+-->
+</STYLE></HEAD><BODY>
+<SYNC start="1000"><P class="ENCC">centred</P></SYNC>
+<SYNC start="2000"><P class="ENCC">&nbsp;</P></SYNC>
+<SYNC start="3000"><P class="ENCC"><span class="hl">right</span> text</P></SYNC>
+</BODY></SAMI>
+"""
+VTT_BAD = "WEBVTT\n\n00:05.000 --> 00:02.000\nend before start\n\n00:06.000 --> 00:07.000\nfine\n"
+SRT_NONE = "1\n"
+
+
 def docs():
     return {
+        "scc_long": ("SCC", SCC_LONG), "scc_left": ("SCC", SCC_LEFT), "scc_badtc": ("SCC", SCC_BADTC),
+        "dfxp_none": ("DFXP", DFXP_NONE), "dfxp_ta": ("DFXP", DFXP_TA), "sami_ta": ("SAMI", SAMI_TA),
+        "vtt_bad": ("WebVTT", VTT_BAD), "srt_none": ("SRT", SRT_NONE),
         "srt1": ("SRT", _head(_ex("example.srt"), "\n\n", 8)), "srt2": ("SRT", SRT2),
         "vtt1": ("WebVTT", _head(_ex("example.vtt"), "\n\n", 9)), "vtt2": ("WebVTT", VTT2),
         "dfxp1": ("DFXP", DFXP1), "dfxp2": ("DFXP", DFXP2), "dfxp_px": ("DFXP", DFXP_PX),
@@ -112,6 +171,14 @@ def docs():
         "mdvd1": ("MicroDVD", _head(_ex("example.sub"), "\n", 10)), "mdvd2": ("MicroDVD", MDVD2),
         "scc1": ("SCC", _head(_ex("example.scc"), "\n", 22)), "scc2": ("SCC", SCC2), "scc3": ("SCC", SCC3),
     }
+
+
+UNREADABLE = ("scc_long", "scc_left", "scc_badtc", "dfxp_none", "vtt_bad", "srt_none")
+
+
+def readable_docs():
+    """the documents every reader accepts (the others exist for the histories of C09 / C10)"""
+    return {k: v for k, v in docs().items() if k not in UNREADABLE}
 
 
 PCT = {"o": [["10", "%"], ["20", "%"]], "e": [["50", "%"], ["30", "%"]], "a": ["center", "top"]}
@@ -128,6 +195,10 @@ BUILDS = {
         "styles": {"c1": {"color": "red", "italics": True}}},
     "b_unclosed": {"langs": [{"lang": "en-US", "caps": [
         {"s": 1000000, "e": 2000000, "nodes": [["t", "before "], ["s", True, {"italics": True}], ["t", "never closed"]]}]}]},
+    "b_textalign": {"langs": [{"lang": "en-US", "caps": [
+        {"s": 1000000, "e": 2000000, "style": {"class": "c1", "text-align": "right"}, "nodes": [["t", "aligned"]]},
+        {"s": 3000000, "e": 4000000, "nodes": [["s", True, {"class": "c2"}], ["t", "span"], ["s", False, {"class": "c2"}]]}]}],
+        "styles": {"c1": {"text-align": "center", "color": "red"}, "c2": {"text-align": "left"}}},
     "b_px": {"langs": [{"lang": "en-US", "caps": [
         {"s": 1000000, "e": 2000000, "layout": PX, "nodes": [["t", "pixels"]]}]}]},
     "b_multi": {"langs": [
